@@ -327,14 +327,8 @@ Fixpoint canon (j : json) : json :=
   | x => x
   end.
 
-(** a response value that encoding/json refuses *)
-Fixpoint marshals (j : json) : bool :=
-  match j with
-  | JFloat d => dy_finite d
-  | JArr xs => forallb marshals xs
-  | JObj kvs => forallb (fun kv => marshals (snd kv)) kvs
-  | _ => true
-  end.
+(** a response value that encoding/json accepts *)
+Definition marshals (j : json) : bool := json_finite j.
 
 Definition dyadic_eqb (a b : dyadic) : bool :=
   match a, b with
